@@ -1,6 +1,7 @@
 import GeomV.C01.Model
 import GeomV.C01.Cert
 import GeomV.C01.Prep
+import GeomV.C01.AreaCert
 /-!
 Driver for C01.  `geomv_c01 judge` reads `<case> => <implementation's answer>` lines and prints
   OK <class> | DIFF <class> <why> (implementation ≠ model) | SPEC <class> <why> (answer violates Spec).
@@ -116,13 +117,34 @@ def parseAsked : Tok → Option (List P)
     do let n ← n.toNat?; go n t
   | _ => none
 
-/-- ` cw <n> <digits>`: one digit (0 Outside, 1 Inside, 2 OnEdge) per asked point -/
-def parseCellAnswers : Tok → Option (List WStatus)
-  | [] => some []
-  | ["cw", _, ds] => ds.toList.mapM fun c => match c with
+/-- ` cw <n> <digits>`: one digit (0 Outside, 1 Inside, 2 OnEdge) per asked point; then optionally
+` ar <bits>`: `Area()` of the result as computed by the library -/
+def parseCellAnswers : Tok → Option (List WStatus × Option Rat)
+  | [] => some ([], none)
+  | "cw" :: _ :: ds :: t => do
+    let a ← ds.toList.mapM fun c => match c with
       | '0' => some WStatus.outside | '1' => some .inside | '2' => some .onEdge | _ => none
-  | ["cw", "0"] => some []
+    let (_, ar) ← parseCellAnswers t
+    pure (a, ar)
+  | ["ar", h] => do let u ← parseU64 h; pure ([], bitsToRat u)
   | _ => none
+
+def absQ (x : Rat) : Rat := if x < 0 then -x else x
+
+/-- display only -/
+def ratF (q : Rat) : Float := Float.ofInt q.num / Float.ofNat q.den
+
+/-- `Area()` as answered by the library against the exact area of the point set: when the area certificate
+accepts the rings (`C01_area_certificate`: cell-area sum of the even–odd set = `exactArea`), the library's
+float must agree with `exactArea` to 1e-9 of (area + extent²); `none` = no objection -/
+def areaObjection (X : Operand) (ext : Rat) (ar : Rat) : Option String :=
+  if (allEdges X.rings).length > 300 then none else
+  let evs := certEvents X X none
+  if areaCert X evs then
+    let ex := exactArea X
+    if absQ (ar - ex) * 1000000000 ≤ absQ ex + ext * ext then none
+    else some s!"Area()={ratF ar} exact-area-of-the-point-set={ratF ex}"
+  else none
 
 def showW : WStatus → String
   | .outside => "Outside" | .inside => "Inside" | .onEdge => "OnEdge"
@@ -187,8 +209,14 @@ def judgeOp (cap : Nat) (op : Op) (A B : Operand) (rhs : Tok) (askTok : Tok := [
                  | some (p, s) => (some (wmsg "" p s), false)
                  | none =>
                    match parseAsked askTok, parseCellAnswers rest with
-                   | some asked, some ans =>
-                     if asked.isEmpty then (none, false)
+                   | some asked, some (ans, ar) =>
+                     -- Area() of a result, asked of the library, against the exact area of its point set
+                     -- (on the lines the prep stage selected: all of the quick tier, one in six beyond the 4000th)
+                     let aobj := match R, ar with
+                       | some X, some a => if asked.isEmpty then none else areaObjection X ext a
+                       | _, _ => none
+                     if let some o := aobj then (some s!"SPEC {cls} Area(result)-is-not-the-area-of-its-point-set {o}", false)
+                     else if asked.isEmpty then (none, false)
                      else if ans.isEmpty && noResult then
                        -- nil result: the library cannot be asked; the certificate says every cell is outside
                        (none, false)
@@ -225,7 +253,8 @@ def certLine (line : String) : String :=
       let evs := certEvents A B R
       let c := certCheck (margin * ext) op A B R evs
       let c0 := certCheck 0 op A B R evs
-      s!"{c} {c0} ev={evs.length} {opName op}-{kindName A}.{kindName B}-{configOf A B}-{pathOf A B op}"
+      let ac := match R with | some X => toString (areaCert X (certEvents X X none)) | none => "nil"
+      s!"{c} {c0} ev={evs.length} area={ac} {opName op}-{kindName A}.{kindName B}-{configOf A B}-{pathOf A B op}"
     | _, _, _ => "skip"
   | _, _ => "skip"
 
@@ -239,10 +268,15 @@ def judgeIe (A B : Operand) (rhs : Tok) : String :=
   | ["ok", a, b, i, u, d, x] =>
     match [a, b, i, u, d, x].mapM parseU64 with
     | some [a, b, i, u, d, x] =>
+      let (a0, b0) := (a, b)
       let f := bitsToFloat
       let (a, b, i, u, d, x) := (f a, f b, f i, f u, f d, f x)
       let tol := 1e-9 * (fabs a + fabs b + fabs u)   -- relative: the figures may be at any coordinate scale
+      let ext := extentOf A.rings B.rings
+      let aobj (X : Operand) (bits : UInt64) : Option String := (bitsToRat bits).bind fun q => areaObjection X ext q
       if !(Valid A && Valid B && GeneralPosition A B) then s!"OK {cls}-outside-quantifier"
+      else if let some o := aobj A a0 then s!"SPEC {cls} Area(A)-is-not-the-area-of-its-point-set {o}"
+      else if let some o := aobj B b0 then s!"SPEC {cls} Area(B)-is-not-the-area-of-its-point-set {o}"
       else if fabs (u + i - (a + b)) > tol then s!"SPEC {cls} inclusion-exclusion |A∪B|+|A∩B|≠|A|+|B| a={a} b={b} i={i} u={u}"
       else if fabs (d - (a - i)) > tol then s!"SPEC {cls} difference-area |A\\B|≠|A|-|A∩B| a={a} i={i} d={d}"
       else if fabs (x - (u - i)) > tol then s!"SPEC {cls} xor-area |AΔB|≠|A∪B|-|A∩B| u={u} i={i} x={x}"
@@ -338,18 +372,33 @@ def judgeLine (cap : Nat) (line : String) : String :=
 
 end GeomV.C01
 
+/-- all non-empty input lines -/
+partial def GeomV.C01.readLines (h : IO.FS.Stream) (acc : Array String) : IO (Array String) := do
+  let line ← h.getLine
+  if line.isEmpty then return acc
+  let l := (line.trimAscii).toString
+  GeomV.C01.readLines h (if l ≠ "" then acc.push l else acc)
+
+/-- `prepLine` / `judgeLine` are pure functions of one line (and its index): the lines are processed in chunks
+on the thread pool, one output line per input line, printed in input order -/
+def GeomV.C01.mapAll (f : Nat → String → String) (lines : Array String) (chunk : Nat := 8) : Array (Task (Array String)) :=
+  (Array.range ((lines.size + chunk - 1) / chunk)).map fun c =>
+    Task.spawn fun _ => ((lines.extract (c * chunk) ((c + 1) * chunk)).zipIdx).map fun (l, i) => f (c * chunk + i) l
+
 open GeomV GeomV.C01 in
 def main (args : List String) : IO Unit := do
   let out ← IO.getStdout
   match args with
-  | ["judge"] => forEachLine fun l => out.putStrLn (judgeLine 1000000 l)
+  | ["judge"] =>
+    let lines ← readLines (← IO.getStdin) #[]
+    for t in mapAll (fun _ l => judgeLine 1000000 l) lines do
+      for v in t.get do out.putStrLn v
+  | ["judge1"] => forEachLine fun l => out.putStrLn (judgeLine 1000000 l)
   | ["judge", n] => forEachLine fun l => out.putStrLn (judgeLine (n.toNat?.getD 1000000) l)
   | ["cert"] => forEachLine fun l => out.putStrLn (certLine l)
   | ["prep"] =>
-    -- every `op` line up to the 4000th, then one in six (the thorough tier has ~60 000)
-    let cnt ← IO.mkRef 0
-    forEachLine fun l => do
-      let n ← cnt.get
-      cnt.set (n + 1)
-      out.putStrLn (if n < 4000 || n % 6 == 0 then prepLine 1500 l else l)
-  | _ => IO.eprintln "usage: geomv_c01 judge [cap]"
+    -- every line up to the 4000th, then one in six (the thorough tier has ~60 000)
+    let lines ← readLines (← IO.getStdin) #[]
+    for t in mapAll (fun n l => if n < 4000 || n % 6 == 0 then prepLine 1500 l else l) lines do
+      for v in t.get do out.putStrLn v
+  | _ => IO.eprintln "usage: geomv_c01 prep | judge [cap]"
